@@ -7,7 +7,10 @@ Sections (DESIGN.md 5/C04):
   vectorised       engine P over (operation, dimension, shape): every vectorised geometry routine equals the
                    Python loop over the units;
   shape-histories  engine E over reshape / flatten_to_unit / [i] / iterate / stack / len histories against the
-                   "ndarray of unit labels" model.
+                   "ndarray of unit labels" model, every root built from arrays of every memory layout (LAYOUTS);
+  apply-layouts    the apply section again on a smaller shape set with X and / or T built from non-C-contiguous arrays;
+  stack-dtypes     engine P over (class, dtype sequence, form): a composite built from an iterable of objects whose
+                   coordinate arrays have DIFFERENT dtypes holds, at index i, the values of the i-th object.
 Units are pairwise distinct, so that a permuted or transposed axis cannot pass.
 """
 import itertools
@@ -151,8 +154,47 @@ def hyperplane_units(N, n):
     return out
 
 
-def build_X(cls, n, shape, seed, offset=0):
-    """Composite library object with units offset..offset+N-1; returns (object, primary data)."""
+LAYOUTS = ["C", "F", "axis-major", "composite-T", "reversed", "strided"]
+
+
+def relayout(data, layout, k=0):
+    """An array with the shape, dtype and VALUES of `data` and another memory layout (k = number of leading
+    composite axes):
+      C            C-contiguous;
+      F            Fortran-contiguous (np.asfortranarray; what `np.array([w, x, y]).T` gives for a list of points);
+      axis-major   the coordinate axis slowest in memory (coordinate-by-coordinate input, any rank);
+      composite-T  the composite axes in reversed order in memory (a transposed grid of units), units C-ordered;
+      reversed     negative strides along every axis (a [::-1] view);
+      strided      every second element of a larger buffer along every axis (a [::2] view)."""
+    data = np.ascontiguousarray(data)
+    nd = data.ndim
+    if layout == "C":
+        out = data.copy()
+    elif layout == "F":
+        out = np.asfortranarray(data)
+    elif layout == "axis-major":
+        out = np.moveaxis(np.ascontiguousarray(np.moveaxis(data, -1, 0)), 0, -1)
+    elif layout == "composite-T":
+        perm = tuple(range(k - 1, -1, -1)) + tuple(range(k, nd))
+        inv = tuple(int(i) for i in np.argsort(perm))
+        out = np.ascontiguousarray(data.transpose(perm)).transpose(inv)
+    elif layout == "reversed":
+        sl = (slice(None, None, -1),) * nd
+        out = np.ascontiguousarray(data[sl])[sl]
+    elif layout == "strided":
+        big = np.zeros(tuple(2 * d for d in data.shape), dtype=data.dtype)
+        sl = (slice(None, None, 2),) * nd
+        big[sl] = data
+        out = big[sl]
+    else:
+        raise ValueError(layout)
+    assert out.shape == data.shape and out.dtype == data.dtype and np.array_equal(out, data), "HARNESS: relayout"
+    return out
+
+
+def build_X(cls, n, shape, seed, offset=0, layout=None):
+    """Composite library object with units offset..offset+N-1; returns (object, primary data).  With a
+    `layout` the object is built directly from the projective array in that memory layout."""
     from geometry_tools import projective as P, hyperbolic as H
     shape = tuple(shape)
     N = S.size(shape)
@@ -161,8 +203,14 @@ def build_X(cls, n, shape, seed, offset=0):
         if units is None:
             return None, None
         data = compose(units[offset:], shape)
-        return H.Hyperplane(data.copy()), data
+        return H.Hyperplane(data.copy() if layout is None else relayout(data, layout, len(shape))), data
     data = compose([unit_data(cls, offset + k, n, seed) for k in range(N)], shape)
+    if layout is not None:
+        arr = relayout(data, layout, len(shape))
+        if cls == "ndarray":
+            return arr, data
+        mod, name = cls.split(".")
+        return getattr(P if mod == "P" else H, name)(arr), data
     if cls == "ndarray":
         return data.copy(), data
     mod, name = cls.split(".")
@@ -176,16 +224,18 @@ def build_X(cls, n, shape, seed, offset=0):
     return C(data.copy()), data
 
 
-def build_T(cls, n, shape, seed):
+def build_T(cls, n, shape, seed, layout=None):
     """Composite transformation with pairwise distinct units; returns (object, row matrices)."""
     from geometry_tools import projective as P, hyperbolic as H
     shape = tuple(shape)
     N = S.size(shape)
     if cls.startswith("H."):
         R = compose([oracle_isometry(j, n) for j in range(N)], shape)
+        if layout is not None:
+            return H.Isometry(relayout(R, layout, len(shape))), R
         return H.Isometry(np.swapaxes(R, -1, -2).copy(), column_vectors=True), R
     R = compose([int_unimodular(j, n + 1) for j in range(N)], shape)
-    return P.Transformation(R.copy()), R
+    return P.Transformation(R.copy() if layout is None else relayout(R, layout, len(shape))), R
 
 
 # ------------------------------------------------------------------------------------------------
@@ -196,16 +246,17 @@ def case_apply(case):
     imap = S.index_map(mode, sX, sT)
     if imap is None:
         return {"v": [], "t": 0, "o": "incompatible", "nt": False}
-    X, X0 = build_X(cls, n, sX, seed)
+    lX, lT = case.get("lX"), case.get("lT")
+    X, X0 = build_X(cls, n, sX, seed, layout=lX)
     if X is None:
         return {"v": [], "t": 1, "o": "skip:hyperplane-constructor", "nt": False}
-    T, R = build_T(cls, n, sT, seed)
+    T, R = build_T(cls, n, sT, seed, layout=lT)
     rs = S.result_shape(mode, sX, sT)
     v = []
     A0 = None if cls == "ndarray" else X.aux_data
     A0 = None if A0 is None else np.array(A0)
     res = T.apply(X, broadcast=mode)
-    tag = "apply/%s" % mode
+    tag = "apply/%s%s" % (mode, "" if (lX or "C") == "C" and (lT or "C") == "C" else "/non-C-layout")
     ucls = cls if cls != "ndarray" else "ndarray"
     if cls != "ndarray" and type(res) is not type(X):
         v.append(V("%s/type/%s" % (tag, ucls), "result is a %s" % type(res).__name__))
@@ -250,7 +301,7 @@ def case_apply(case):
             bad += 1
             if bad <= 1:
                 v.append(V("%s/entry-vs-unit-call/%s" % (tag, ucls), "X%r T%r: entry %r differs from T[%r] @ X[%r] computed on the units" % (sX, sT, idx, j, i)))
-    return {"v": v, "t": t, "o": repr((rs, round(float(np.sum(res.proj_data)), 3))), "nt": len(imap) > 1}
+    return {"v": v, "t": t, "o": repr((rs, lX, lT, round(float(np.sum(res.proj_data)), 3))), "nt": len(imap) > 1}
 
 
 # ------------------------------------------------------------------------------------------------
@@ -455,7 +506,8 @@ def unit_obj(cls, label, n, seed):
 def case_hist(hist):
     root, ops = hist[0], hist[1:]
     cls, n, seed = root["cls"], root["n"], root["seed"]
-    obj, _ = build_X(cls, n, tuple(root["shape"]), seed)
+    layout = root.get("layout")
+    obj, _ = build_X(cls, n, tuple(root["shape"]), seed, layout=layout)
     C = type(obj)
     model = S.labels(root["shape"])
     v = []
@@ -479,7 +531,7 @@ def case_hist(hist):
                 v += check_units(cls, x, model[i], n, seed, "iterate")
             obj = C(items)
         elif name == "stack":
-            other, _ = build_X(cls, n, model.shape, seed, offset=nxt)
+            other, _ = build_X(cls, n, model.shape, seed, offset=nxt, layout=layout)
             omodel = S.labels(model.shape, nxt)
             nxt += int(model.size)
             obj, model = C([obj, other]), S.m_stack(model, omodel)
@@ -503,8 +555,10 @@ def case_hist(hist):
             nextops += [["iterate"], ["len"]]
         if nxt + N <= 96:
             nextops.append(["stack"])
-    key = repr((cls, n, model.shape, tuple(model.flatten().tolist())))
-    return {"v": v, "t": t, "o": repr((cls, model.shape)), "nt": model.size > 1, "key": key, "ops": nextops}
+    if (layout or "C") != "C":
+        v = [V(x["key"] + "/non-C-layout", "[object built from a %s array] %s" % (layout, x["msg"])) for x in v]
+    key = repr((cls, n, layout or "C", model.shape, tuple(model.flatten().tolist())))
+    return {"v": v, "t": t, "o": repr((cls, layout or "C", model.shape)), "nt": model.size > 1, "key": key, "ops": nextops}
 
 
 def check_units(cls, obj, model, n, seed, after):
@@ -532,6 +586,125 @@ def check_units(cls, obj, model, n, seed, after):
 
 
 # ------------------------------------------------------------------------------------------------
+# section stack-dtypes
+# ------------------------------------------------------------------------------------------------
+STACK_CLASSES = ["P.Point", "P.PointPair", "P.Polygon", "P.Transformation",
+                 "H.Point", "H.PointPair", "H.Segment", "H.Polygon", "H.Isometry"]
+DTYPES = ["int64", "float64", "complex128", "float32"]
+UNIT_ROWS = {"Point": 1, "PointPair": 2, "Segment": 2, "Polygon": 3}
+
+
+def hyp_row(j, dt, n, seed):
+    """j-th timelike row of a given dtype; pairwise distinct for j < 25, values that a cast to a narrower
+    dtype changes (float64 rows are not float32 numbers, float rows are not integers)."""
+    if dt == "int64":
+        return np.array([5] + [((j // 5 ** i) % 5) - 2 for i in range(n)], dtype=np.int64)
+    if dt == "float32":
+        return np.array([1.0] + [((((j + 1) * (2 * i + 3)) % 37) - 18) / 64.0 for i in range(n)], dtype=np.float32)
+    if dt == "float64":
+        return trow(j, n, seed)
+    raise ValueError(dt)
+
+
+def int_isometry(k, n):
+    """k-th signed permutation of the spatial coordinates (an integer element of O(n,1)), identity excluded."""
+    out = []
+    for perm in itertools.permutations(range(n)):
+        for signs in itertools.product((1, -1), repeat=n):
+            m = np.zeros((n + 1, n + 1), dtype=np.int64)
+            m[0, 0] = 1
+            for a, b in enumerate(perm):
+                m[1 + a, 1 + b] = signs[a]
+            if not np.array_equal(m, np.eye(n + 1)):
+                out.append(m)
+    return out[k % len(out)]
+
+
+def dtype_unit_data(cls, k, dt, n, seed):
+    """Coordinate array of dtype dt for the unit with label k of a class; None if the class has no such units."""
+    mod, name = cls.split(".")
+    if mod == "P":
+        base = unit_data(cls, k, n, seed)                  # integer valued, pairwise distinct
+        if dt == "int64":
+            return base.astype(np.int64)
+        if dt == "float32":
+            return (1.25 * base).astype(np.float32)        # exact in float32, not integers
+        if dt == "float64":
+            return 1.1 * base                              # neither integers nor float32 numbers
+        if dt == "complex128":
+            if name == "Transformation":
+                return (1.1 + 0.7j) * base
+            return 1.1 * base + 0.7j * unit_data(cls, k + 29, n, seed)
+        raise ValueError(dt)
+    if dt == "complex128":
+        return None
+    if name == "Isometry":
+        if dt == "int64":
+            return int_isometry(k, n)
+        R = oracle_isometry(k + (9 if dt == "float32" else 0), n)
+        return R.astype(np.float32) if dt == "float32" else R
+    r = UNIT_ROWS[name]
+    rows_ = [hyp_row(r * k + i, dt, n, seed) for i in range(r)]
+    return rows_[0] if r == 1 else np.stack(rows_)
+
+
+def case_stack(case):
+    """Cls([x_0, x_1, ...]) for objects x_i whose coordinate arrays have the dtypes of `pattern`: entry i of the
+    result has the values of x_i (compared as complex128: NumPy's own upcast is value preserving)."""
+    from geometry_tools import projective as P, hyperbolic as H
+    cls, n, pattern, form, seed = case["cls"], case["n"], case["pattern"], case["form"], case["seed"]
+    mod, name = cls.split(".")
+    C = getattr(P if mod == "P" else H, name)
+    items, k = [], 0
+    for dt in pattern:
+        if form == "units":
+            d = dtype_unit_data(cls, k, dt, n, seed)
+            k += 1
+        else:                                              # composites of shape (2,), one dtype each
+            d0, d1 = dtype_unit_data(cls, k, dt, n, seed), dtype_unit_data(cls, k + 1, dt, n, seed)
+            d = None if d0 is None else np.stack([d0, d1])
+            k += 2
+        if d is None:
+            return {"v": [], "t": 0, "o": "skip:no-such-units", "nt": False}
+        items.append(C(d))
+    v = []
+    t = len(items) + 1
+    kinds = [x.proj_data.dtype.name for x in items]
+    if case.get("iterable") == "tuple":
+        comp = C(tuple(items))
+    elif case.get("iterable") == "generator":
+        comp = C(x for x in items)
+    else:
+        comp = C(list(items))
+    cat = "%s/%s" % ("same-dtype" if len(set(kinds)) == 1 else "mixed-dtypes", cls)
+    if type(comp) is not C:
+        v.append(V("stack/type/%s" % cat, "Cls(list of %s) is a %s" % (cls, type(comp).__name__)))
+        return {"v": v, "t": t, "o": "type", "nt": True}
+    eshape = (len(items),) + tuple(items[0].shape)
+    if tuple(comp.shape) != eshape:
+        v.append(V("stack/shape/%s" % cat, "stack of %d objects of shape %r has shape %r" % (len(items), items[0].shape, comp.shape)))
+        return {"v": v, "t": t, "o": "shape", "nt": True}
+    cx = lambda a: np.asarray(a).astype(complex)
+    for i, x in enumerate(items):
+        for what, got, exp in (("primary", comp.proj_data[i], x.proj_data), ("aux", None if comp.aux_data is None else comp.aux_data[i], x.aux_data)):
+            if exp is None and got is None:
+                continue
+            if exp is None or got is None or not close(cx(got), cx(exp), 1e-12):
+                v.append(V("stack/units/%s/%s" % (what, cat), "dtypes %r (%s): entry %d of the stack is\n%r\nbut the object put in was\n%r" % (
+                    kinds, form, i, got, exp)))
+                break
+        else:
+            y = comp[i]
+            t += 1
+            if type(y) is not C or tuple(y.shape) != tuple(x.shape) or not close(cx(y.proj_data), cx(x.proj_data), 1e-12) or \
+                    ((x.aux_data is not None) and (y.aux_data is None or not close(cx(y.aux_data), cx(x.aux_data), 1e-9))):
+                v.append(V("stack/index/%s" % cat, "dtypes %r (%s): stack[%d] is not the object put in" % (kinds, form, i)))
+            continue
+        break
+    return {"v": v, "t": t, "o": repr((cls, tuple(kinds), form, comp.proj_data.dtype.name)), "nt": len(set(kinds)) > 1}
+
+
+# ------------------------------------------------------------------------------------------------
 def run(ctx):
     q = ctx.quick
     only = getattr(ctx, "only", None)
@@ -541,8 +714,11 @@ def run(ctx):
     S.self_test()
     SH = [list(s) for s in (lattice.SHAPES_QUICK if q else lattice.shapes())]
     ctx.rule = ("apply: every (class, dimension, shape_X, shape_T, mode) with elementwise restricted to broadcast-compatible "
-                "pairs; vectorised: every (operation, dimension, shape); histories: BFS over reshape/flatten/index/iterate/"
-                "stack/len, de-duplicated on (class, label array); units pairwise distinct; non-trivial = more than one unit")
+                "pairs; apply-layouts: the same with every (layout_X, layout_T) on a smaller shape set; vectorised: every "
+                "(operation, dimension, shape); histories: BFS over reshape/flatten/index/iterate/stack/len from every "
+                "(class, shape, construction route / memory layout) root, de-duplicated on (class, layout, label array); "
+                "stack-dtypes: every (class, dtype sequence, form, iterable kind); units pairwise distinct; non-trivial = "
+                "more than one unit / more than one dtype")
     ctx.assume("elementwise application is demanded only for broadcast-compatible composite shapes (np.broadcast_shapes)")
     ctx.assume("pairwise: result axes = object's axes then transformation's axes, entry [i][j] = T[j] applied to X[i] (property text); "
                "pairwise_reversed: transformation's axes first (docstring of utils.matrix_product)")
@@ -550,6 +726,11 @@ def run(ctx):
     ctx.assume("segments / geodesics used for circle parameters do not pass through the origin and are generic (C14 owns the formulas; here only unit-wise agreement)")
     ctx.assume("fixed points are compared as projective rows (an eigenvector's scale is not part of the property); dimension 2 only (F12)")
     ctx.assume("Hyperplane units come from the library constructor on generic normals and are verified before use")
+    ctx.assume("an object's units are the VALUES of its coordinate array: the memory layout (C / Fortran / transposed / reversed / "
+               "strided views) of the array it was built from is not observable")
+    ctx.assume("stack-dtypes: objects may hold int64 / float32 / float64 / complex128 coordinates (Point.get_origin(dtype=int) "
+               "produces integer points itself); a stack holds the values of every object put in, compared after NumPy's "
+               "value-preserving upcast to complex128; hyperbolic classes with real dtypes only")
     ctx.tolerances["entries"] = "1e-9*(1+|v|): the same floating products in a different batching; integer data 1e-12"
     ctx.tolerances["oracle charts / distance"] = "1e-7: only to pin the unit order against the oracle (C01 owns accuracy)"
     ctx.tolerances["fixed points"] = "sine between rows <= 1e-7 (parabolic eigenvectors are sqrt(eps)-conditioned)"
@@ -566,9 +747,35 @@ def run(ctx):
         ctx.product("vectorised-geometry", "checks.c04:case_vec", cases, chunk=8,
                     domains={"operations": VEC_OPS, "dimension": "2 and 3 (circle parameters, fixed points, SL(2) maps: 2)",
                              "shapes": len(SH)})
+    if want("apply-layouts"):
+        LS = [[], [3], [2, 3], [2, 1, 3]] if q else [[], [3], [1, 2], [2, 3], [2, 1, 3], [3, 2, 2]]
+        LP = [(a, b) for a in LAYOUTS for b in LAYOUTS if (a == "C") != (b == "C") or (a == b and a != "C")]
+        cases = [{"cls": c, "n": 2, "sX": sx, "sT": st, "mode": m, "seed": ctx.seed, "lX": lx, "lT": lt}
+                 for c in APPLY_CLASSES for m in S.MODES for sx in LS for st in LS for (lx, lt) in LP
+                 if S.result_shape(m, sx, st) is not None]
+        ctx.product("apply-layouts", "checks.c04:case_apply", cases, chunk=32,
+                    domains={"classes": APPLY_CLASSES, "dimension": [2], "modes": S.MODES, "shapes of X and T": LS,
+                             "memory layouts": LAYOUTS,
+                             "(layout of X's array, layout of T's array)": "one of them C and the other not, or both the same non-C layout"})
+    if want("stack"):
+        pats = [list(p) for p in itertools.product(DTYPES, repeat=2)] + \
+               [list(p) for p in itertools.product(DTYPES[:3], repeat=3)]
+        cases = [{"cls": c, "n": 2, "pattern": p, "form": f, "iterable": "list", "seed": ctx.seed}
+                 for c in STACK_CLASSES for p in pats for f in ("units", "composites")]
+        cases += [{"cls": c, "n": 3, "pattern": p, "form": "units", "iterable": it, "seed": ctx.seed}
+                  for c in STACK_CLASSES for p in pats[:16] for it in ("tuple", "generator")]
+        ctx.product("stack-dtypes", "checks.c04:case_stack", cases, chunk=32,
+                    domains={"classes": STACK_CLASSES, "dtypes": DTYPES,
+                             "dtype sequences": "all of length 2 over the four dtypes, all of length 3 over int64/float64/complex128 "
+                                                "(hyperbolic classes: the real ones)",
+                             "form": ["single objects", "composites of shape (2,), one dtype each"],
+                             "iterable": ["list", "tuple", "generator"]})
     if want("shape"):
-        roots = [[{"cls": c, "n": 3 if c.startswith("P.") else 2, "shape": s, "seed": ctx.seed}]
-                 for c in HIST_CLASSES for s in ([], [3], [2, 3], [2, 1, 2])]
+        HL = LAYOUTS
+        roots = [[{"cls": c, "n": 3 if c.startswith("P.") else 2, "shape": s, "seed": ctx.seed, "layout": l}]
+                 for c in HIST_CLASSES for s in ([], [3], [2, 3], [2, 1, 2]) for l in [None] + HL]
         ctx.bfs("shape-histories", "checks.c04:case_hist", roots, depth=2 if q else 3, chunk=16,
                 domains={"classes": HIST_CLASSES, "initial shapes": [[], [3], [2, 3], [2, 1, 2]],
+                         "construction": ["the class's usual constructor (points / endpoints / basepoint+vector)"] +
+                                         ["Cls(projective array in %s memory layout)" % l for l in HL],
                          "ops": "reshape(every shape of rank<=3 of equal size), flatten_to_unit, [i], iterate+restack, stack Cls([x, y]), len"})
